@@ -218,6 +218,47 @@ class Class:
         return out
 
 
+class _PresenceSpelling(ast.NodeTransformer):
+    """One spelling for "the recorded JSON name, else the Python name".
+
+    `b if p.source is None else p.source`  (and `p.source if p.source is not None else b`) are read as
+    `p.source or b`; `if p.source is None:` as `if not p.source:`.  The rewritten nodes carry `_presence = True`,
+    which is what rule N5 looks at: the rules about WHICH name is used share one spelling, and N5 alone decides
+    whether presence or truth is tested."""
+
+    @staticmethod
+    def _is_source(e):
+        return isinstance(e, ast.Attribute) and e.attr == "source"
+
+    def _none_test(self, t):
+        """(subject, is_none) for `X.source is None` / `X.source is not None`"""
+        if isinstance(t, ast.Compare) and len(t.ops) == 1 and isinstance(t.ops[0], (ast.Is, ast.IsNot)) \
+                and self._is_source(t.left) and isinstance(t.comparators[0], ast.Constant) and t.comparators[0].value is None:
+            return t.left, isinstance(t.ops[0], ast.Is)
+        return None, None
+
+    def visit_IfExp(self, node):
+        self.generic_visit(node)
+        subj, is_none = self._none_test(node.test)
+        if subj is not None:
+            same, other = (node.orelse, node.body) if is_none else (node.body, node.orelse)
+            if self._is_source(same) and ast.dump(same) == ast.dump(subj):
+                new = ast.BoolOp(op=ast.Or(), values=[same, other])
+                new._presence = True
+                return ast.copy_location(new, node)
+        return node
+
+    def visit_If(self, node):
+        self.generic_visit(node)
+        subj, is_none = self._none_test(node.test)
+        if subj is not None:
+            new = ast.UnaryOp(op=ast.Not(), operand=subj) if is_none else subj
+            new = ast.copy_location(new, node.test)
+            new._presence = True
+            node.test = new
+        return node
+
+
 class Module:
     def __init__(self, prog, name, relpath, path, tree, source):
         self.prog = prog
@@ -271,6 +312,8 @@ class Program:
                     tree = ast.parse(src, filename=rel)
                 except SyntaxError as exc:
                     raise AnalysisError(f"cannot parse {rel}: {exc}")
+                tree = _PresenceSpelling().visit(tree)
+                ast.fix_missing_locations(tree)
                 mod = Module(self, name, rel.replace(os.sep, "/"), path, tree, src)
                 self.modules[name] = mod
                 self.by_relpath[mod.relpath] = mod
